@@ -5,6 +5,7 @@ import (
 	"math/rand"
 	"os"
 	"path/filepath"
+	"regexp"
 	"strings"
 	"time"
 )
@@ -15,11 +16,12 @@ func init() { props["C09"] = runC09 }
 var envLevels = []string{"parent", "context", "envfile", "task", "stage", "variation"}
 
 type envSpec struct {
-	mask   int      // bit i: level i defines N
-	vals   []string // value per level
-	stage  bool     // run as a pipeline stage (otherwise directly: the stage level does not exist)
-	order  string   // how the values sort relative to the levels
-	twoVar bool     // a second variation follows that does NOT define the name: it must see the next level down
+	mask     int      // bit i: level i defines N
+	vals     []string // value per level
+	stage    bool     // run as a pipeline stage (otherwise directly: the stage level does not exist)
+	order    string   // how the values sort relative to the levels
+	twoVar   bool     // a second variation follows that does NOT define the name: it must see the next level down
+	emptyTop bool     // the value at the highest defining level is the empty string: it still hides the levels below
 }
 
 func (s envSpec) line() string {
@@ -30,6 +32,15 @@ func (s envSpec) line() string {
 		}
 	}
 	return "env " + strings.Join(parts, " ")
+}
+
+func (s envSpec) topLevel() int {
+	for i := len(envLevels) - 1; i >= 0; i-- {
+		if s.mask&(1<<uint(i)) != 0 && (s.stage || envLevels[i] != "stage") {
+			return i
+		}
+	}
+	return -1
 }
 
 func (s envSpec) expected() string {
@@ -84,7 +95,7 @@ func envCase(col *Collector, s envSpec) {
 		target = "p"
 	}
 	res := runTaskctl(dir, env, 20*time.Second, "--output", "raw", target)
-	cs := Case{Line: s.line(), Tags: []string{"env", "order=" + s.order, fmt.Sprintf("stage=%v", s.stage)}}
+	cs := Case{Line: s.line(), Tags: []string{"env", "order=" + s.order, fmt.Sprintf("stage=%v", s.stage), fmt.Sprintf("emptyTop=%v", s.emptyTop)}}
 	cs.Replay = fmt.Sprintf("%s stage=%v (config: %s)", s.line(), s.stage, strings.ReplaceAll(s.yaml(os.DevNull), "\n", "\\n"))
 	nlev := 0
 	for i := range envLevels {
@@ -137,6 +148,7 @@ type dirSpec struct {
 	fromSub                   bool // taskctl started in a sub-directory of the project
 	templated                 bool // task dir given as {{.Root}}/...
 	stage                     bool
+	cdFirst                   bool // an earlier command of the task changes directory: the next command starts afresh
 }
 
 func (s dirSpec) line() string {
@@ -163,7 +175,12 @@ func dirCase(col *Collector, s dirSpec) {
 	} else {
 		b.WriteString("    env: {X: y}\n")
 	}
-	b.WriteString("tasks:\n  t:\n    context: cx\n")
+	if s.ctxDir || !s.cdFirst {
+		b.WriteString("tasks:\n  t:\n    context: cx\n")
+	} else {
+		// no named context at all (a named context always carries a directory of its own once built)
+		b.WriteString("tasks:\n  t:\n")
+	}
 	if s.taskDir {
 		if s.templated {
 			b.WriteString("    dir: \"{{.Root}}/td\"\n")
@@ -171,10 +188,14 @@ func dirCase(col *Collector, s dirSpec) {
 			fmt.Fprintf(&b, "    dir: %s\n", filepath.Join(root, "td"))
 		}
 	}
-	fmt.Fprintf(&b, "    condition: 'echo cond=$(pwd) >> %s'\n", trace)
-	fmt.Fprintf(&b, "    before: ['echo before=$(pwd) >> %s']\n", trace)
-	fmt.Fprintf(&b, "    command: ['echo cmd=$(pwd) >> %s']\n", trace)
-	fmt.Fprintf(&b, "    after: ['echo after=$(pwd) >> %s']\n", trace)
+	fmt.Fprintf(&b, "    condition: 'echo cond=$(/bin/pwd) >> %s'\n", trace)
+	fmt.Fprintf(&b, "    before: ['echo before=$(/bin/pwd) >> %s']\n", trace)
+	if s.cdFirst {
+		fmt.Fprintf(&b, "    command: ['cd /; echo first=$(/bin/pwd) >> %s', 'echo cmd=$(/bin/pwd) >> %s']\n", trace, trace)
+	} else {
+		fmt.Fprintf(&b, "    command: ['echo cmd=$(/bin/pwd) >> %s']\n", trace)
+	}
+	fmt.Fprintf(&b, "    after: ['echo after=$(/bin/pwd) >> %s']\n", trace)
 	b.WriteString("pipelines:\n  p:\n    - task: t\n")
 	if s.stageDir {
 		fmt.Fprintf(&b, "      dir: %s\n", filepath.Join(root, "sd"))
@@ -199,7 +220,7 @@ func dirCase(col *Collector, s dirSpec) {
 		want = filepath.Join(root, "cd")
 	}
 	cs := Case{Line: s.line(), Tags: []string{"dir", fmt.Sprintf("fromSub=%v", s.fromSub), fmt.Sprintf("stage=%v", s.stage)}}
-	cs.Replay = fmt.Sprintf("%s fromSub=%v templated=%v stage=%v", s.line(), s.fromSub, s.templated, s.stage)
+	cs.Replay = fmt.Sprintf("%s fromSub=%v templated=%v stage=%v cdFirst=%v", s.line(), s.fromSub, s.templated, s.stage, s.cdFirst)
 	cs.NonTrivial = true
 	got := map[string]string{}
 	for _, l := range readTrace(trace) {
@@ -238,6 +259,49 @@ func dirCase(col *Collector, s dirSpec) {
 	col.Add(cs)
 }
 
+var taskNameRec = regexp.MustCompile(`RESULT who=(\w+) TN=\[([^\]]*)\]`)
+
+// TASK_NAME with several tasks running at the same time on one runner: each command sees its own task's name
+func taskNameCase(col *Collector, k int, withCtx bool) {
+	dir := newScratchDir("c09t")
+	defer os.RemoveAll(dir)
+	var b strings.Builder
+	if withCtx {
+		b.WriteString("contexts:\n  cx:\n    env: {CTXONLY: yes}\n")
+	}
+	b.WriteString("tasks:\n")
+	for i := 0; i < k; i++ {
+		fmt.Fprintf(&b, "  job%d:\n", i)
+		if withCtx && i%2 == 0 {
+			b.WriteString("    context: cx\n")
+		}
+		fmt.Fprintf(&b, "    command:\n      - 'sleep 0.3; echo \"RESULT who=job%d TN=[$TASK_NAME]\"'\n      - 'echo \"RESULT who=job%d TN=[$TASK_NAME]\"'\n", i, i)
+	}
+	b.WriteString("pipelines:\n  p:\n")
+	for i := 0; i < k; i++ {
+		fmt.Fprintf(&b, "    - task: job%d\n", i)
+	}
+	os.WriteFile(filepath.Join(dir, "tasks.yaml"), []byte(b.String()), 0644)
+	res := runTaskctl(dir, nil, 30*time.Second, "--output", "raw", "p")
+	cs := Case{Replay: fmt.Sprintf("task-name k=%d ctx=%v (config: %s)", k, withCtx, strings.ReplaceAll(b.String(), "\n", "\\n")), Tags: []string{"task-name-parallel", fmt.Sprintf("k=%d", k)}, NonTrivial: true}
+	seen := 0
+	// concurrent raw writers can share a line: match the records, not the lines
+	for _, m := range taskNameRec.FindAllStringSubmatch(res.stdout, -1) {
+		seen++
+		if m[2] != m[1] && cs.Fail == "" {
+			cs.Fail, cs.Sig = fmt.Sprintf("a command of task %s saw TASK_NAME=%s", m[1], m[2]), "c09-task-name"
+		}
+	}
+	cs.Impl = fmt.Sprintf("results=%d", seen)
+	switch {
+	case res.panicked || res.timedOut || res.exit != 0:
+		cs.Fail, cs.Sig = fmt.Sprintf("taskctl exit=%d timeout=%v: %s", res.exit, res.timedOut, lastLines(res.stderr, 2)), "c09-run-failed"
+	case seen != 2*k && cs.Fail == "":
+		cs.Fail, cs.Sig = fmt.Sprintf("%d result lines, expected %d", seen, 2*k), "c09-run-failed"
+	}
+	col.Add(cs)
+}
+
 func runC09(col *Collector, tier string, seed int64) {
 	rng := rand.New(rand.NewSource(seed))
 	col.res.Rule = "the real taskctl binary with a controlled parent environment: every non-empty subset of the six levels {parent, context env, env_file, task env, stage env, variation} defining one name (63 subsets), " +
@@ -272,7 +336,7 @@ func runC09(col *Collector, tier string, seed int64) {
 	for m := 0; m < 8; m++ {
 		for _, sub := range []bool{false, true} {
 			for _, stage := range []bool{false, true} {
-				dirs = append(dirs, dirSpec{stageDir: m&1 != 0, taskDir: m&2 != 0, ctxDir: m&4 != 0, fromSub: sub, stage: stage, templated: rng.Intn(2) == 0})
+				dirs = append(dirs, dirSpec{stageDir: m&1 != 0, taskDir: m&2 != 0, ctxDir: m&4 != 0, fromSub: sub, stage: stage, templated: rng.Intn(2) == 0, cdFirst: (m+len(dirs))%2 == 0})
 			}
 		}
 	}
@@ -283,5 +347,9 @@ func runC09(col *Collector, tier string, seed int64) {
 			dirCase(col, dirs[i-len(envs)])
 		}
 	})
+	for _, k := range []int{2, 3, 6} {
+		taskNameCase(col, k, false)
+		taskNameCase(col, k, true)
+	}
 	col.res.Exhaustive = true
 }
